@@ -59,6 +59,8 @@ func (n *recNode) Process(ctx context.Context, e *eventlogger.Event) (*eventlogg
 		return &eventlogger.Event{Type: e.Type, CreatedAt: e.CreatedAt, Formatted: map[string][]byte{}, Payload: marker{n.inst}}, nil
 	case "drop":
 		return nil, nil
+	case "errev": // an error together with a non-nil event
+		return e, instErr{n.inst}
 	default:
 		return nil, instErr{n.inst}
 	}
@@ -650,7 +652,7 @@ func (h *regHarness) exec(line string) string {
 				wantCalls = append(wantCalls, [2]int{n.inst, m})
 				stop := false
 				switch n.beh {
-				case "err":
+				case "err", "errev":
 					wantWarn = append(wantWarn, n.inst)
 					stop = true
 				case "drop":
@@ -758,7 +760,7 @@ func (h *regHarness) exec(line string) string {
 
 // ---- generators ----
 
-var regBehs = []string{"pass", "pass", "replace", "drop", "err"}
+var regBehs = []string{"pass", "pass", "replace", "drop", "err", "errev"}
 var regPols = []string{"dflt", "dflt", "allow", "deny"}
 
 func genRegistryCase(p *prng, malformed bool, maxLen int) []string {
